@@ -1,6 +1,6 @@
 """C06 - an actor-model transition is exactly one atomic handler step of one actor."""
 from actor_rules import (ACTIONS, ALL_HANDLERS, FORMAT_STEP, HANDLERS, ID_FIELD, INIT, NS, PC, STATE,
-                         NextState, is_usize_from_id, noref)
+                         NextState, is_usize_from_id, noref, pc_calls)
 from common import bodies_with_closures
 from mir import AnchorMissing, V
 
@@ -71,7 +71,7 @@ def r1_table(ctx, F):
         b = F.body(INIT)
         ctx.touched(b)
         st = b.calls_to('Actor::on_start')
-        pcs = b.calls_to('ActorModel::process_commands')
+        pcs = pc_calls(F, b)
         ok = len(st) == 1 and b.in_cycle(st[0].bb) and len(pcs) == 1 and b.dominates(st[0].bb, pcs[0].bb) \
             and b.in_cycle(pcs[0].bb)
         ctx.check(ok, rule, 'init-on_start-per-actor', b,
@@ -111,7 +111,7 @@ def r2_consumption(ctx, F):
         ('Deliver', ('Network::on_deliver',), 'the delivered message is taken off the network', None),
     ]
     for v, pats, what, argfield in specs:
-        pcs = ns.calls_in(v, 'ActorModel::process_commands')
+        pcs = pc_calls(F, b, ns.arm(v)[0])
         cs = ns.calls_in(v, *pats)
         if len(pcs) != 1:
             raise AnchorMissing('next_state %s arm: process_commands call (found %d)' % (v, len(pcs)))
@@ -130,7 +130,7 @@ def r2_consumption(ctx, F):
                       good='what is consumed is the action\'s own %s' % argfield,
                       bad='next_state: the %s arm consumes %r, not the action\'s %s' % (v, av, argfield))
     # Deliver: receive recorded before any send
-    pcs = ns.calls_in('Deliver', 'ActorModel::process_commands')
+    pcs = pc_calls(F, b, ns.arm('Deliver')[0])
     rec = [c for c in ns.calls_in('Deliver') if c.indirect and b.val(c.fnptr).fields()[-1:] == ('.record_msg_in',)]
     ok = len(rec) == 1 and b.dominates(rec[0].bb, pcs[0].bb)
     ctx.check(ok, rule, 'Deliver-history-in-before-out', b,
@@ -151,7 +151,8 @@ def r2_consumption(ctx, F):
 
 def r3_commands(ctx, F):
     rule = 'C06-R3'
-    b = F.body(PC)
+    import roles
+    b = roles.process_commands(F)
     ctx.touched(b)
     sws = [sw for sw in b.switches if sw.kind == 'variant' and
            set(l for (l, t) in sw.edges if isinstance(l, str)) >= {'Send', 'SetTimer', 'CancelTimer', 'ChooseRandom'}]
@@ -256,7 +257,7 @@ def r4_slots(ctx, F):
                   bad='next_state: the %s arm writes %s: another actor\'s slot (or the predecessor) is '
                       'modified' % (v, [(x[0].span, repr(x[1]), repr(x[2])) for x in bad]))
         # process_commands gets the same id and the clone
-        for pc in [c for c in b.calls if c.bb in blocks and c.is_('ActorModel::process_commands')]:
+        for pc in pc_calls(F, b, blocks):
             okp = noref(b.val(pc.args[1])) == ns.action_id(v) and \
                 noref(b.val(pc.args[3])).kind == 'call' and noref(b.val(pc.args[3])).key == clone.bb
             ctx.check(okp, rule, '%s-commands-for-acting-actor' % v, b,
@@ -264,7 +265,8 @@ def r4_slots(ctx, F):
                       bad='next_state: process_commands in the %s arm is not called with the action\'s id '
                           'and the successor clone' % v)
     # process_commands: every index is usize::from(id param)
-    pc = F.body(PC)
+    import roles
+    pc = roles.process_commands(F)
     froms = [c for c in pc.calls if is_usize_from_id(c)]
     okf = len(froms) >= 1 and all(noref(pc.val(c.args[0])).kind == 'arg' for c in froms)
     ims = pc.calls_to('IndexMut::index_mut')
